@@ -178,7 +178,7 @@ def fanGetPwm (d : Dev) : Res Int :=
 
 /-- `fan.GetRpm()` -/
 def fanGetRpm (f : FanSt) (d : Dev) : Res Int :=
-  if f.kind == .cmd && !d.hasRpm then .ok 0
+  if !d.hasRpm then (if f.kind == .cmd then .ok 0 else .err "read")   -- no RPM input: cmd fans report 0, a missing file cannot be read
   else match d.rpmRead with
     | .ok => .ok d.rpm
     | _ => .err "read"
